@@ -95,6 +95,76 @@ def cross_check(sample):
     return out
 
 
+def _inputs_key(tier: str, seed: int) -> str:
+    """hash of EVERYTHING a unit's result depends on: the current sources of the package under verification, the verifier, the
+    specifications, the baseline (alpha-renaming), the interpreter's library files that are verified from source, the solver
+    version and the environment switches"""
+    import glob
+
+    h = hashlib.sha256()
+    repo_src = os.path.join(os.environ.get("VERIF_REPO", "/repo"), "src", "asyncio_taskpool")
+    files = sorted(glob.glob(os.path.join(repo_src, "**", "*.py"), recursive=True))
+    files += sorted(glob.glob(os.path.join(HERE, "pyvc", "*.py"))) + sorted(glob.glob(os.path.join(HERE, "spec", "*.py"))) + [os.path.join(HERE, "baseline_obligations.json")]
+    for f in files:
+        h.update(os.path.relpath(f, HERE if f.startswith(HERE) else repo_src).encode() + b"\0")
+        h.update(open(f, "rb").read())
+    try:
+        from spec.asyncio_units import stdlib_file
+
+        for mod in ("asyncio.locks", "asyncio.queues", "asyncio.tasks", "argparse"):
+            h.update(open(stdlib_file(mod), "rb").read())
+    except Exception as e:  # the units will report the problem themselves
+        h.update(repr(e).encode())
+    import z3
+
+    h.update(z3.get_version_string().encode() + sys.version.encode())
+    for k in sorted(os.environ):
+        if k.startswith("VERIF_") and k not in ("VERIF_REPO", "VERIF_OUT_TAG", "VERIF_TIER", "VERIF_SEED", "VERIF_NO_CACHE"):
+            h.update(f"{k}={os.environ[k]}".encode())
+    if tier == "thorough":
+        h.update(f"thorough:{seed}".encode())  # the SMT-LIB sample exported for the other solvers depends on the seed
+    return h.hexdigest()[:24]
+
+
+def cached_run_units(units, jobs, tier, seed):
+    """the 15 pool properties are proved from one invariant over the same 38 units: a unit's result is memoised under a key that
+    covers every input (see _inputs_key), so that the checks of one tree share the work.  A hit is marked in the evidence.
+    VERIF_NO_CACHE=1 switches the memo off."""
+    if os.environ.get("VERIF_NO_CACHE") == "1":
+        return run_units(units, None, jobs)
+    key = _inputs_key(tier, seed)
+    cdir = os.path.join(HERE, "out", "cache", key)
+    os.makedirs(cdir, exist_ok=True)
+    res, todo = {}, []
+    for u in units:
+        f = os.path.join(cdir, hashlib.sha256(u.name.encode()).hexdigest()[:20] + ".json")
+        try:
+            r = json.load(open(f))
+            r["cache"] = "hit:" + key
+            res[u.name] = r
+        except Exception:
+            todo.append((u, f))
+    if todo:
+        for (u, f), r in zip(todo, run_units([u for u, _f in todo], None, jobs)):
+            if r["status"] != "crash":
+                tmp = f + f".{os.getpid()}.tmp"
+                json.dump(r, open(tmp, "w"))
+                os.replace(tmp, f)
+            r["cache"] = "computed:" + key
+            res[u.name] = r
+    # keep the cache small: only the newest few keys stay
+    try:
+        root = os.path.join(HERE, "out", "cache")
+        keys = sorted(os.listdir(root), key=lambda d: os.path.getmtime(os.path.join(root, d)))
+        import shutil
+
+        for d in keys[:-12]:
+            shutil.rmtree(os.path.join(root, d), ignore_errors=True)
+    except Exception:
+        pass
+    return [res[u.name] for u in units]
+
+
 def engine_selftest():
     """vacuity guard of the discharge pipeline itself: a deliberately false obligation must come back `failed`, a true
     quantified one `proved` (otherwise nothing this run reports can be believed => exit 3)"""
@@ -130,7 +200,7 @@ def main() -> int:
     if not units and prop not in getattr(registry_mod(), "NATIVE_SOURCES", {}):
         print(f"no unit carries obligations of {prop}")
         return 3
-    results = run_units(units, None, args.jobs) if units else []
+    results = cached_run_units(units, args.jobs, tier, seed) if units else []
     findings_doc = json.load(open(os.path.join(HERE, "known_findings.json")))
     findings = findings_doc["findings"]
     baseline = {}
@@ -354,7 +424,7 @@ def main() -> int:
                             f"NOT fully proved on this tree: {len(goals) - len(proved)} obligation(s) are not discharged "
                             f"({len(failed)} failed, {len(unknown)} unknown); failures matching known_findings.json: {sorted(known_hits)}; "
                             f"new violations: {len(violations)}"),
-            "units": [{"unit": r["unit"], "status": r["status"], "obligations": len(r["obligations"]), "wall_s": r["wall_s"], "error": r["error"]} for r in results],
+            "units": [{"unit": r["unit"], "status": r["status"], "obligations": len(r["obligations"]), "wall_s": r["wall_s"], "error": r["error"], "memo": r.get("cache", "")} for r in results],
             "functions_under_contract": funcs,
             "by_backend": by_backend,
             "solver_time_s": round(sum(o["ms"] for o in obls) / 1000.0, 2),
